@@ -37,6 +37,7 @@ def make_cases(rnd, tier, progs):
     out += modcheck.enumerated(rnd, modcorr.TRANSFORMS, "not-in-place-on-every-structured-program", modes=(False,),
                                before=((), ("unroll",), ("has_measurements", "depth")),
                                after=((), ("remove_idle_qubits",), ("reverse_qubit_order",), ("unroll",)))
+    out += modcheck.conversion_histories(rnd, "to_qasm3-then-both-modules")
     return out
 
 
